@@ -107,6 +107,13 @@ def gen(rng, tier, i):
         cmd('hb me 1;hb a 1;hb b 1')
         j = p.cycle(tick())
     p.opt('c05_cycle', j)
+    if rng.random() < 0.25:
+        # statements that leave a catch { } block from the inside (return; in loops and switches too): the compiler has to refuse
+        # them or the interpreter has to unwind the catch frame - either way the stacks are whole afterwards
+        inner = rng.choice(('return 5;', 'while (x) { return 5; }', 'switch (x) { case 1: return 5; }', 'if (x) return 5;', 'foreach (y in ({ 1 })) return y;'))
+        p.file('cr.c', 'inherit "/script";\nint h3(int a, int b, int c) { return a + b + c; }\nint f(int a, int b) { int x, y; x = 1; y = h3(1, 2, 3); catch { %s }; return 7; }\n'
+                        'void go() { rec("CR " + f(1, 2)); rec("CR " + f(3, 4)); }\n' % inner)
+        cmd('call /cr go')
     cmd('probe', 1)
     p.cycle(tick()); p.idle(1)
     cmd('probe', 1)
